@@ -4,6 +4,7 @@ set -e
 cd "$(dirname "$0")/../harness"
 export CARGO_NET_OFFLINE=true
 cargo build --release --offline --no-default-features --features std --target-dir target 2>&1 | tail -1
+cargo build --offline --no-default-features --features std --target-dir target-dev 2>&1 | tail -1     # the unoptimised build (deep-recursion runs of C01)
 cargo build --release --offline --no-default-features --features nostd_marker --target-dir target-nostd 2>&1 | tail -1
 cargo build --release --offline --no-default-features --features serialize --target-dir target-ser 2>&1 | tail -1
 (cd sendsync && cargo build --offline --target-dir ../target-sendsync 2>&1 | tail -1 && cargo build --offline --no-default-features --target-dir ../target-sendsync 2>&1 | tail -1)
